@@ -464,6 +464,7 @@ outer:
 			id := nextStreamID
 			streamCategory := &addedStreams
 			touchedByNewPcaps := false
+			startsEarlier := false
 		outer:
 			for pi := range s.Packets {
 				pmd := pcapmetadata.FromPacketMetadata(&s.Packets[pi])
@@ -472,6 +473,11 @@ outer:
 						touchedByNewPcaps = true
 						if id != nextStreamID {
 							streamCategory = &updatedStreams
+							if startsEarlier {
+								// packets of a known but never indexed pcap precede the first indexed packet:
+								// the stream did not just grow, its start (and with it client and server) changed
+								streamCategory = &resetStreams
+							}
 							break outer
 						}
 						continue outer
@@ -487,6 +493,7 @@ outer:
 					}
 					if stream != nil {
 						id = stream.ID()
+						startsEarlier = pi != 0
 						break
 					}
 				}
